@@ -119,14 +119,7 @@ def run(repo, chk):
             if isinstance(n, ast.Call) and src(n.func) in ('asm.Indirect', 'asm.IndirectByte'):
                 chk.expect(fname in ('reserve_byte', 'reserve_word'), 'C04.A1', f'{fname}::{src(n)[:50]}',
                            'fp-relative accessors may only be created by reserve_byte/reserve_word', GEN, n.lineno)
-    # Tracker.update / add semantics (structure)
-    tr = repo.methods(TRACKER, 'Tracker')
-    upd = src(tr['update']) if 'update' in tr else ''
-    chk.expect('bisect.bisect_left(self.max_vals, new_max)' in upd and 'repeat(new_max, num_less)' in upd, 'C04.A1',
-               'Tracker.update', 'update must raise every tracked maximum that is below the new value', TRACKER)
-    add = src(tr['add']) if 'add' in tr else ''
-    chk.expect('bisect.bisect_right(self.max_vals, cur_val)' in add and 'self.max_vals.insert(idx, cur_val)' in add, 'C04.A1',
-               'Tracker.add', 'add must start tracking from the current value', TRACKER)
+    # Tracker.update / add / pop_level semantics: decided by interpretation over all operation sequences (_tracker below)
 
     _tracker(repo, chk)
     _bookkeeping(repo, chk)
